@@ -248,6 +248,12 @@ func (o *orC19) onZK(e *ZKEvent) {
 			m.probe("c19_non_cluster_host_deregistered")
 			return
 		}
+		if !o.relaxed(sv) {
+			// dropped at the cluster's level of that time: from here on its settings are its own
+			// again (a later master with stricter settings does not make them "mysync's relaxed" ones)
+			delete(o.everReg, h)
+			delete(o.wroteBy, h)
+		}
 		if o.relaxed(sv) {
 			sig := "host-dropped-from-registry-before-settings-restored"
 			if o.restoredBy[h] == e.Inc && o.relaxedBy[h] != "" && o.relaxedBy[h] != e.Inc {
